@@ -1077,6 +1077,21 @@ def call_ext(it, dotted, args, kwargs):
                 hi -= 1
         out = seq[lo:hi]
         return Arr(out) if isinstance(args[0], Arr) else (tuple(out) if isinstance(args[0], tuple) else list(out))
+    if mod == 'bisect' and short in ('bisect_left', 'bisect_right', 'bisect'):
+        # binary search over a (possibly symbolic) ascending list: the answer is found by ordinary forking comparisons
+        seq = it.iterate(args[0])
+        x = args[1]
+        lo = as_int(args[2]) if len(args) > 2 else as_int(kwargs.get('lo', 0))
+        hi = as_int(args[3]) if len(args) > 3 else (as_int(kwargs['hi']) if 'hi' in kwargs else len(seq))
+        left = short == 'bisect_left'
+        while lo < hi:
+            mid_ = (lo + hi) // 2
+            go_right = it.truth(it.compare_vals('lt' if left else 'le', seq[mid_], x))
+            if go_right:
+                lo = mid_ + 1
+            else:
+                hi = mid_
+        return lo
     if short == 'partial' and mod == 'functools':
         from .values import PyFunc
         f0, pre, prekw = args[0], list(args[1:]), dict(kwargs)
